@@ -708,6 +708,9 @@ class CostFunction_GaussApproximation(CostFunction):
         :return: cost function value
         """
         _residuals = model - data
+        if not self._add_determinant_cost_ga and np.all(_residuals == 0):
+            # saturated model: the quadratic form is zero even if a data point (and hence the matrix diagonal) is zero
+            return 0.0
         if self._fast_math:
             _cholesky = cholesky_decomposition(total_cov_mat + np.diag(model))
             try:
